@@ -5,7 +5,7 @@ from __future__ import annotations
 import ast
 
 from . import norm
-from .paths import Path, Step, step_assigned, step_awaits, step_calls, step_own_nodes
+from .paths import Path, Step, step_assigned, step_awaits, step_calls, step_own_nodes, step_rebound
 from .repo import AnalysisError, call_name, dotted
 
 
@@ -22,10 +22,11 @@ class PathView:
         env: dict[str, ast.AST] = dict(initial_env or {})
         for st in self.steps:
             self._envs.append(dict(env))
-            assigned = step_assigned(st)
+            assigned = step_rebound(st)
             old_env = env
             env = dict(env)
-            # drop definitions that read or are a re-assigned name
+            # drop definitions that are, or read, a re-bound name (in-place mutation of an input does not
+            # change the value a local already holds)
             for name in list(env):
                 if name in assigned or (norm.names_in(env[name]) & assigned):
                     del env[name]
@@ -61,6 +62,15 @@ class PathView:
         f = self.formula_of(st.node, idx)
         return f if st.pol else norm.neg(f)
 
+    def feasible(self) -> bool:
+        """False when the path's own conditions contradict each other after local substitution
+        (e.g. ``flag = False`` followed by the true branch of ``if flag``)."""
+        fs = [self.cond_formula(i) for i, st in enumerate(self.steps) if st.kind == "cond"]
+        for f in fs:
+            if not norm.atoms_of(f) and not norm.evaluate(f, {}):
+                return False
+        return True
+
     # ------------------------------------------------------------------ guards
     def premise(self, idx: int, since: int = 0, invalidating_calls: set[str] | None = None,
                 inner: ast.AST | None = None):
@@ -77,10 +87,8 @@ class PathView:
             if st.kind != "cond":
                 continue
             f = self.cond_formula(i)
-            names = norm.formula_names(f) | norm.names_in(st.node)
-            names -= set(self.rename.values())
-            renamed_back = {k for k, v in self.rename.items() if v in norm.formula_names(f)}
-            names |= renamed_back
+            # what the condition itself reads (locals it tests keep their value when their inputs change)
+            names = norm.names_in(st.node)
             stale = False
             for k in range(i + 1, idx):
                 mid = self.steps[k]
